@@ -304,6 +304,8 @@ func init() {
 			}
 		case f[0] == "TY" && len(f) == 3:
 			return doTyped(f[1], f[2]), true
+		case f[0] == "ST" && len(f) == 6:
+			return doTypedModel(f[1], f[2], f[3], f[4], f[5]), true
 		case f[0] == "Y" && len(f) == 5:
 			return doSlice(f[1], f[2], f[3], f[4]), true
 		case f[0] == "X" && len(f) == 4:
